@@ -51,7 +51,11 @@ type RecStorage struct {
 	// NidEmptyOK: an unknown node id is answered with an empty set and no error (as a database-backed
 	// store might) instead of ErrNotFound
 	NidEmptyOK bool
-	nid        bool
+	// FailOp/FailType, when FailOp is set: the next operation of that name (and, when FailType is set, on that
+	// message type) fails with Fail; one shot
+	FailOp   string
+	FailType string
+	nid      bool
 }
 
 func NewRecStorage(inner nodeenrollment.Storage, nodeIdLoader bool) *RecStorage {
@@ -163,7 +167,11 @@ func (r *RecStorage) begin(op, typ, id string, write bool, b []byte) (OpRec, err
 	r.seq++
 	rec := OpRec{Seq: r.seq, Op: op, Type: typ, Id: id, Write: write, Bytes: b}
 	var ferr error
-	if r.FailAt != 0 && r.seq == r.FailAt {
+	match := r.FailOp != "" && r.FailOp == op && (r.FailType == "" || r.FailType == typ)
+	if match {
+		r.FailOp = ""
+	}
+	if (r.FailAt != 0 && r.seq == r.FailAt) || match {
 		switch r.Fail {
 		case FaultNotFound:
 			ferr = fmt.Errorf("injected: %w", nodeenrollment.ErrNotFound)
